@@ -118,7 +118,7 @@ def build_harness(run, lib, name, sources, extra=None, cxx=False, libs=None):
     return exe
 
 
-SAN_ENV = {"ASAN_OPTIONS": "abort_on_error=0:detect_leaks=1:allocator_may_return_null=1:exitcode=99:max_allocation_size_mb=4096",
+SAN_ENV = {"ASAN_OPTIONS": "abort_on_error=0:detect_leaks=1:allocator_may_return_null=1:exitcode=99:max_allocation_size_mb=4096:quarantine_size_mb=64",
            "UBSAN_OPTIONS": "print_stacktrace=1:halt_on_error=1:exitcode=98",
            "TSAN_OPTIONS": "exitcode=97:halt_on_error=1"}
 
@@ -361,14 +361,15 @@ def report_violation(run, signature, what, replay_obj):
 
 
 def write_evidence(run, level, coverage, assumptions):
-    os.makedirs(os.path.join(VERIF, "evidence"), exist_ok=True)
+    evdir = os.path.join(VERIF, "evidence") if "VERIF_REPO" not in os.environ else "/tmp/verif-dev-evidence"   # dev runs against scratch trees never touch the committed evidence
+    os.makedirs(evdir, exist_ok=True)
     ev = {"property_id": run.pid, "tier": run.tier, "seed": run.seed, "level": level, "coverage": coverage,
           "assumptions": assumptions, "wall_s": round(time.time() - run.t0, 2), "violations": len(run.violations),
           "known_findings": [k["what"] for k in run.known], "tlc_runs": run.tlc_runs, "notes": run.notes}
-    tmp = os.path.join(VERIF, "evidence", ".%s.json.tmp%d" % (run.pid, os.getpid()))
+    tmp = os.path.join(evdir, ".%s.json.tmp%d" % (run.pid, os.getpid()))
     with open(tmp, "w") as f:
         json.dump(ev, f, indent=1)
-    os.replace(tmp, os.path.join(VERIF, "evidence", "%s.json" % run.pid))
+    os.replace(tmp, os.path.join(evdir, "%s.json" % run.pid))
 
 
 def run_harness(run, exe, args, out=None, timeout=1200, env=None, ok_codes=(0,)):
